@@ -8,6 +8,7 @@ var Registry = map[string]func(tier string) int{
 	"C04": C04,
 	"C05": C05,
 	"C06": C06,
+	"C09": C09,
 	"C10": C10,
 	"C11": C11,
 	"C12": C12,
